@@ -186,16 +186,23 @@ def schedule_from(desc):
 
 # --------------------------------------------------------------------------
 def make_store(file_inputs, layout=None):
-    """file_inputs: dict 'form.key' -> string.  Returns InputStore over own ConfigParser"""
+    """file_inputs: dict 'form.key' -> string.  Returns an InputStore over a ConfigParser that *parsed* an INI text
+    with these values (what reading the user's file does; ConfigParser.set() would refuse some texts a file may hold)"""
     cp = configparser.ConfigParser()
     items = list(file_inputs.items())
     if layout == 'reversed':
         items.reverse()
+    secs = {}
     for name, s in items:
         sec, key = name.split('.')
-        if not cp.has_section(sec):
-            cp.add_section(sec)
-        cp.set(sec, key, s)
+        secs.setdefault(sec, []).append((key, s))
+    text = []
+    for sec, kv in secs.items():
+        text.append(f'[{sec}]')
+        for key, s in kv:
+            text.append(f'{key} = ' + str(s).replace('\n', '\n\t'))
+        text.append('')
+    cp.read_string('\n'.join(text))
     return hinputs.InputStore(cp)
 
 
@@ -207,7 +214,7 @@ class Result(object):
     """everything observable about one solve"""
     __slots__ = ('verdict', 'exc', 'solution', 'unimpl', 'need_inputs', 'blocked', 'prompts',
                  'log', 'forms', 'final_inputs', 'solver', 'refused', 'unimpl_list', 'need_inputs_lists',
-                 'blocked_lists', 'schedule', 'store', 'store_inputs')
+                 'blocked_lists', 'schedule', 'store', 'store_inputs', 'solution_unstable')
 
     def canon(self):
         if self.exc is not None:
@@ -246,7 +253,7 @@ def run_solve(form_list, requested, file_inputs, answer=None, schedule=None, ins
         store = make_store(file_inputs, layout)
     # what the user supplied: the file as read at the start plus every typed answer (NOT read back from the store
     # after the run, so a store that alters what it was given is visible)
-    supplied = {f'{sec}.{k}': v for sec in store.config.sections() for k, v in store.config[sec].items()}
+    supplied = {f'{sec}.{k}': v for sec in store.config.sections() for k, v in store.config.items(sec, raw=True)}
     prompts = []
     r = Result()
     r.refused = False
@@ -283,11 +290,26 @@ def run_solve(form_list, requested, file_inputs, answer=None, schedule=None, ins
     r.prompts = prompts
     r.log = log
     r.schedule = schedule
-    r.store_inputs = {f'{sec}.{k}': v for sec in store.config.sections() for k, v in store.config[sec].items()}
+    r.store_inputs = {f'{sec}.{k}': v for sec in store.config.sections() for k, v in store.config.items(sec, raw=True)}
     r.final_inputs = supplied
     r.forms = sorted(s.forms)
+    r.solution_unstable = None
     if r.exc is None:
-        r.solution = config_to_dict(s.solution())
+        first = s.solution()
+        r.solution = config_to_dict(first)
+        # a caller may do what it likes with the object it was handed (the CLI adds a [habutax] section, fill-pdfs removes
+        # one): the solver's own answer must not change
+        try:
+            first.add_section('zz_probe')
+            for sec in list(first.sections())[:1]:
+                for k in list(first[sec])[:1]:
+                    first.remove_option(sec, k)
+            again = config_to_dict(s.solution())
+            again.pop('zz_probe', None) if False else None
+            if again != r.solution:
+                r.solution_unstable = sorted(set(again) ^ set(r.solution)) or 'options differ'
+        except Exception as e:
+            r.solution_unstable = f'{type(e).__name__}: {e}'
         r.unimpl_list = list(s.unimplemented_fields())
         r.unimpl = set(r.unimpl_list)
         r.need_inputs_lists = s.unmet_input_dependencies()
